@@ -447,6 +447,7 @@ def run(ctx):
     check_element_guards(ctx, reach)
     check_local_map_index(ctx, reach)
     check_key_agreement(ctx)
+    check_asserted_fresh(ctx, reach)
     # the parser's tabled asserts (`!types.is_empty()` …) rest on decisions taken through a Lookahead: a stale lookahead
     # makes them reachable (C12's R12.8 typestate, recorded here as R14.7)
     import c12_grammar
@@ -468,6 +469,137 @@ def run(ctx):
         else:
             ctx.ob("R14.4", key, False, "unbounded recursion driven by input nesting (%s); deep nesting overflows the stack" % desc, site=db.fns[c[0]].span)
     ctx.ob("R14.4", "count", len(comps) >= 8, "recursive SCCs reachable from the entry points: %d" % len(comps), nontrivial=False)
+
+
+LOOKUPS = ("contains_key", "get", "get_full", "get_index_of", "get_mut", "contains", "entry", "get_key_value", "remove", "shift_remove", "swap_remove")
+
+
+def _same_map(prov, f, a, g, b):
+    """do operand a (in f) and operand b (in g) designate the same map?  same struct field path, or the same local / parameter"""
+    sa, sb = narrow_(prov, f, a), narrow_(prov, g, b)
+    fa = {(n, o) for n, o, v in sa.fields if not o.startswith(("core::", "alloc::", "tuple")) and o != "tuple"}
+    fb = {(n, o) for n, o, v in sb.fields if not o.startswith(("core::", "alloc::", "tuple")) and o != "tuple"}
+    if fa or fb:
+        return bool(fa & fb)
+    return f is g and bool(sa.locals & sb.locals)
+
+
+def narrow_(prov, f, op):
+    from prov import narrow
+    return narrow(prov, f, op)
+
+
+def check_asserted_fresh(ctx, reach):
+    """R14.9: an insert whose displaced value is asserted to be absent (`assert!(prev.is_none())`, `.is_none()` -> panic!) states
+    the belief "this key is not in the map yet".  The belief needs a reason the code can show: a lookup of the same map
+    (contains_key / get / entry / remove …) that dominates the insert in the function itself, or at every call site when the
+    map is a parameter.  An asserted insert with no such lookup anywhere is reachable with a duplicate key from the input
+    (e.g. a type declared under the name of a function of the same interface) and panics."""
+    from pat import switch_after, true_false_targets
+    db, prov = ctx.db, ctx.prov
+    callers = db.callers()
+    tp = os.path.join(engine.VERIF, "specs", "asserted_fresh.json")
+    tabled = {e["key"]: e["reason"] for e in json.load(open(tp))["reviewed"]} if os.path.exists(tp) else {}
+
+    def panics(cfg, b, depth=3):
+        x = b
+        for _ in range(depth):
+            t = cfg.blocks[x].term
+            if t.k == "call" and ("panicking" in (t.path or "") or (t.path or "").rsplit("::", 1)[-1].startswith("panic")):
+                return True
+            su = cfg.succ[x]
+            if len(su) != 1:
+                return False
+            x = su[0]
+        return False
+    n = 0
+    kcount = {}
+    for fid in sorted(reach):
+        f = db.fns.get(fid)
+        if f is None or f.from_expansion or f.file not in PIPELINE_FILES:
+            continue
+        cfg = None
+        done = set()
+        for c in f.calls():
+            nm = (c.path or "").rsplit("::", 1)[-1]
+            if nm not in ("is_none", "is_some") or "Option" not in (c.path or ""):
+                continue
+            sl = prov.slice(f, c.args[0])
+            ins = [x for _, x in sl.calls if (x.path or "").rsplit("::", 1)[-1] in ("insert", "insert_full") and ("Map" in (x.path or "") or "Set" in (x.path or ""))]
+            if not ins:
+                continue
+            cfg = cfg or CFG(f)
+            sw = switch_after(cfg, c)
+            if sw is None:
+                continue
+            tt, ft = true_false_targets(sw)
+            if not any(panics(cfg, x) for x in (ft if nm == "is_none" else tt)):
+                continue
+            I = ins[0]
+            if id(I) in done:
+                continue
+            done.add(id(I))
+            n += 1
+            ctx.touch(f)
+            # (a) a lookup of the same map dominating the insert in this function
+            local = [l for l in f.calls() if l is not I and (l.path or "").rsplit("::", 1)[-1] in LOOKUPS and ("Map" in (l.path or "") or "Set" in (l.path or ""))
+                     and l.bb != I.bb and cfg.reaches(l.bb, I.bb) and _same_map(prov, f, l.args[0], f, I.args[0])]
+            ok = bool(local)
+            why = "a lookup of the same map (%s) precedes the asserted insert" % (local[0].path.rsplit("::", 1)[-1] if local else "")
+            if not ok:
+                # (a') … through a local helper that performs the lookup (`self.find_owner(x)` reads `self.owners`)
+                mine = {(nn, o) for nn, o, v in narrow_(prov, f, I.args[0]).fields if not o.startswith(("core::", "alloc::"))}
+                for h in f.calls():
+                    g = db.fns.get(h.path or "")
+                    if g is None or g.crate != f.crate or h.bb == I.bb or not cfg.reaches(h.bb, I.bb) or not mine:
+                        continue
+                    for l in g.calls():
+                        if (l.path or "").rsplit("::", 1)[-1] in LOOKUPS and ("Map" in (l.path or "") or "Set" in (l.path or "")):
+                            theirs = {(nn, o) for nn, o, v in narrow_(prov, g, l.args[0]).fields if not o.startswith(("core::", "alloc::"))}
+                            if mine & theirs:
+                                ok, why = True, "a lookup of the same map in the helper %s precedes the asserted insert" % g.id.rsplit("::", 1)[-1]
+            if not ok:
+                # (b) the map is a parameter: every caller looks the map up before the call
+                ps = sorted(i for fid_, i in narrow_(prov, f, I.args[0]).params if fid_ == f.id and 1 <= i <= f.arg_count)
+                sites = [(g, t) for g in (db.fns.get(x) for x in callers.get(f.id, ())) if g is not None for t in g.calls() if t.path == f.id]
+
+                def looked_up(g, t, pidx, depth=0):
+                    """does g look the map it passes as parameter pidx of call t up before the call — or, when it only forwards its own
+                    parameter, do all of g's callers?"""
+                    cg = CFG(g)
+                    arg = t.args[pidx - 1]
+                    pre = [l for l in g.calls() if (l.path or "").rsplit("::", 1)[-1] in LOOKUPS and ("Map" in (l.path or "") or "Set" in (l.path or ""))
+                           and cg.reaches(l.bb, t.bb) and _same_map(prov, g, l.args[0], g, arg)]
+                    if pre:
+                        return True
+                    fwd = sorted(i for fid_, i in narrow_(prov, g, arg).params if fid_ == g.id and 1 <= i <= g.arg_count)
+                    up = [(h, c) for h in (db.fns.get(x) for x in callers.get(g.id, ())) if h is not None for c in h.calls() if c.path == g.id]
+                    if fwd and up and depth < 3 and not narrow_(prov, g, arg).fields - {x for x in narrow_(prov, g, arg).fields if x[1].startswith(("core::", "alloc::"))}:
+                        return all(looked_up(h, c, fwd[0], depth + 1) for h, c in up)
+                    return False
+                if ps and sites:
+                    good = sum(1 for g, t in sites if looked_up(g, t, ps[0]))
+                    ok = good == len(sites)
+                    why = "the map is a parameter and every one of the %d call sites looks the key up in it first" % len(sites) if ok else \
+                        "the map is a parameter and %d of %d call sites hand it over without looking the key up" % (len(sites) - good, len(sites))
+                else:
+                    why = "no lookup of this map precedes the insert"
+            if not ok:
+                # (c) the key is an id that was created just now (fresh by construction)
+                ks = prov.slice(f, I.args[1])
+                mk = sorted({(x.path or "").rsplit("::", 1)[-1] for _, x in ks.calls} & {"instantiate", "add_node", "alloc", "add_interface", "add_world", "add_resource", "add_func_type", "add_defined_type", "add_module_type"})
+                if mk:
+                    ok, why = True, "the key is an id created by %s in this function (fresh by construction)" % "/".join(mk)
+            key = "fresh|%s|%s" % (f.id.split("::", 1)[1], "/".join(sorted({nn for nn, o, v in narrow_(prov, f, I.args[0]).fields if not o.startswith(("core::", "alloc::"))})) or "local")
+            kcount[key] = kcount.get(key, 0) + 1
+            if kcount[key] > 1:
+                key += "#%d" % kcount[key]
+            if not ok and key in tabled:
+                ok, why = True, "reviewed: " + tabled[key]
+            ctx.ob("R14.9", key, ok, why if ok else
+                   "`insert` asserted to displace nothing, but %s: a key that is already present (reachable from the input) makes the assertion panic" % why,
+                   site="%s in %s" % (I.span, f.id))
+    ctx.ob("R14.9", "count", n >= 15, "asserted-fresh inserts on the pipeline: %d" % n, nontrivial=False)
 
 
 def check_key_agreement(ctx):
